@@ -11,7 +11,8 @@ from harness import c01 as T
 
 RULE = ('real TransmissionModel, 2-25 layers, 1-5 wavenumbers, 2-4 trace gases (constant/array profiles), CIA pairs '
         'H2-H2, H2-He, H2-<trace gas>, contributions drawn from {Absorption, CIA, Rayleigh, SimpleClouds, FlatMie | '
-        'LeeMie, HydrogenIon} (at least two) in shuffled insertion order, opacity regime thin/mid/thick. distinct '
+        'LeeMie, HydrogenIon} (at least two) in shuffled insertion order, opacity regime thin/mid/thick; every 3rd case '
+        'has a trace gas (first/middle/last) at EXACTLY zero abundance (constant, some layers, all layers). distinct '
         'non-trivial = distinct (contribution multiset, layers, regime) with a transmittance strictly between 0 and 1')
 ASSUMPTIONS = ['per-species cross-sections opacity(T_l, P_l, wn), cia(T_l, wn) and the Rayleigh / H- laws are taken from '
                'the real cache objects (C04 models the interpolation); their abundance weighting and summation is modelled',
@@ -64,8 +65,35 @@ def gen_case(rng, k):
     if regime != 'thin':
         for c in spec['cia']:
             c['xsec'] = np.asarray(c['xsec']) * 1e6
+    # fixed quota (every 3rd case) of EXACT zero abundances: a trace gas that is first / middle / last among the
+    # active molecules is constant 0.0, or an array profile with zeros in some layers, or in all layers; a CIA pair
+    # with that gas as partner is added; Absorption and Rayleigh (and that CIA pair) are then always present
+    zero_class = (k % 3 == 0)
+    if zero_class:
+        ng = len(spec['gases'])
+        pos = [0, ng // 2, ng - 1][(k // 3) % 3]
+        g = spec['gases'][pos]
+        mode = ['constant', 'some-layers', 'all-layers'][(k // 9) % 3]
+        if mode == 'constant':
+            g['type'], g['mix'] = 'constant', 0.0
+        else:
+            prof = 10 ** rng.uniform(-8, -2, size=nl)
+            if mode == 'all-layers':
+                prof[:] = 0.0
+            else:
+                mask = rng.random(nl) < 0.5
+                mask[int(rng.integers(0, nl))] = True
+                prof[mask] = 0.0
+            g['type'], g['mix'] = 'array', prof
+        spec['zero_gas'] = dict(mol=g['mol'], position=['first', 'middle', 'last'][(k // 3) % 3], mode=mode)
+        if 'H2-' + g['mol'] not in pairs:
+            spec['cia'].append(FM.gen_cia(rng, 'H2-' + g['mol'], FM.gen_wngrid(rng, int(rng.integers(2, 6))), -40.0, -34.0,
+                                          nT=int(rng.integers(1, 4))))
+            pairs.append('H2-' + g['mol'])
     pool = ['absorption', 'cia', 'rayleigh', 'clouds', 'haze', 'hm']
     want = [p for p in pool if rng.random() < 0.55]
+    if zero_class:
+        want = sorted(set(want) | {'absorption', 'rayleigh', 'cia'}, key=pool.index)
     if 'cia' in want and not pairs:
         want.remove('cia')
     while len(want) < 2:
@@ -283,6 +311,7 @@ def eval_case(ctx, spec, extras=True):
                                   spec, dict(component=cn))
                     break
     check_sigma(ctx, m, wn, spec)
+    zero_gas_checks(ctx, spec, m, wn, trans, depth)
     if extras:
         extra_checks(ctx, spec, m, wn, trans, depth, names)
     mixed = bool(np.any((trans > 1e-6) & (trans < 1 - 1e-9)))
@@ -398,6 +427,70 @@ def extra_checks(ctx, spec, m, wn, trans, depth, names):
             ctx.bucket('proportionality-rerun')
         except Exception as e:
             ctx.violation('raises-scaled-abundance:' + type(e).__name__, 'model with a scaled abundance raised %r' % (e,), spec)
+
+
+def without_gas(spec, mol):
+    """the same atmosphere with `mol` removed altogether (gas, table, CIA pairs that name it)"""
+    s2 = dict(spec)
+    s2['gases'] = [g for g in spec['gases'] if g['mol'] != mol]
+    s2['opacities'] = [o for o in spec['opacities'] if o['mol'] != mol]
+    s2['cia'] = [c for c in spec['cia'] if mol not in c['pair'].split('-')]
+    cs = []
+    for c in spec['contributions']:
+        if c['type'] == 'cia':
+            c = dict(c, pairs=[pr for pr in c['pairs'] if mol not in pr.split('-')])
+        cs.append(c)
+    s2['contributions'] = cs
+    return s2
+
+
+def zero_gas_checks(ctx, spec, m, wn, trans, depth):
+    """a species at exactly zero abundance changes nothing: its components are all-zero / absent, and the model
+    equals the model without the species"""
+    z = spec.get('zero_gas')
+    if not z:
+        return
+    mol = z['mol']
+    ctx.bucket('zero-gas:%s:%s' % (z['position'], z['mode']))
+    prof = np.asarray(m.chemistry.get_gas_mix_profile(mol), float)
+    zero_layers = prof == 0.0
+    if not zero_layers.any():
+        ctx.violation('zero-gas-not-zero', 'a gas given exactly zero abundance has a non-zero mixing ratio', spec,
+                      dict(molecule=mol, profile=prof))
+        return
+    for contrib in m.contribution_list:
+        cname = type(contrib).__name__
+        if cname not in ('AbsorptionContribution', 'CIAContribution', 'RayleighContribution'):
+            continue
+        for nm, sig in contrib.prepare_each(m, wn):
+            sig = np.array(sig, float)
+            if mol in str(nm).split('-') and np.any(sig[zero_layers] != 0.0):
+                ctx.violation('zero-abundance-component:' + cname,
+                              'the component of a species with zero abundance is not zero in those layers', spec,
+                              dict(component=nm, molecule=mol, sigma=sig[:, 0], mix=prof))
+                break
+        contrib.prepare(m, wn)
+    if not zero_layers.all():
+        return
+    s2 = without_gas(spec, mol)
+    if not s2['opacities']:
+        return
+    try:
+        m2, wn2, depth2, trans2, p2, _ = T.run_real(s2)
+    except Exception as e:
+        ctx.violation('raises-without-zero-gas:' + type(e).__name__, 'model without the zero-abundance gas raised %r' % (e,),
+                      spec, dict(molecule=mol))
+        return
+    if not np.array_equal(wn2, wn):
+        ctx.bucket('zero-gas:defines-native-grid(skipped)')
+        return
+    bad = sym_rows(trans, trans2)
+    if bad is not None or not C.close(depth, depth2, rel=1e-9, abs_=E10 * float(np.max(depth))):
+        ctx.violation('zero-abundance-vs-absent', 'the model with a species at zero abundance differs from the model without '
+                      'that species', spec, dict(molecule=mol, with_zero=depth, without=depth2))
+    if np.array_equal(trans, trans2) and np.array_equal(depth, depth2):
+        ctx.bucket('zero-gas:bit-identical-to-absent')
+    FM.spec_install(spec)
 
 
 def malformed(ctx):
